@@ -21,7 +21,7 @@ import (
 // leave undrained.
 
 type c17Op struct {
-	K     string `json:"k"` // request | advance | drain
+	K     string `json:"k"` // request | advance | drain | flood (Secs = number of requests)
 	Chain uint32 `json:"chain,omitempty"`
 	Tx    int    `json:"tx,omitempty"`
 	Secs  int    `json:"secs,omitempty"`
@@ -94,6 +94,26 @@ func runC17(c c17Case, barriers int) (*vh.Violation, vh.Outcome, bool) {
 		case "drain":
 			q := queues[vaa.ChainID(o.Chain)]
 			for q != nil && len(q) > 0 {
+				<-q
+			}
+		case "flood": // many requests for distinct other transactions, each forwarded (the watcher keeps up): volume must not erase what is remembered
+			q := queues[vaa.ChainID(o.Chain)]
+			if q == nil || cap(q) == 0 {
+				continue
+			}
+			out.Labels = append(out.Labels, "flood")
+			for j := 0; j < o.Secs; j++ {
+				for len(q) > 0 {
+					<-q
+				}
+				if v := send(&gossipv1.ObservationRequest{ChainId: o.Chain, TxHash: []byte(fmt.Sprintf("flood-%d-%d", i, j))}); v != nil {
+					return v, out, false
+				}
+				if v := barrier(1); v != nil {
+					return v, out, false
+				}
+			}
+			for len(q) > 0 {
 				<-q
 			}
 		case "request":
@@ -197,11 +217,16 @@ func qlens(qs map[vaa.ChainID]chan *gossipv1.ObservationRequest) string {
 func genC17(t *rapid.T) c17Case {
 	c := c17Case{Caps: rapid.SliceOfN(rapid.IntRange(0, 3), 3, 3).Draw(t, "caps")}
 	op := rapid.Custom(func(t *rapid.T) []c17Op {
-		switch rapid.SampledFrom([]string{"request", "request", "request", "request", "advance", "advance", "drain", "window", "window"}).Draw(t, "k") {
+		switch rapid.SampledFrom([]string{"request", "request", "request", "request", "advance", "advance", "drain", "window", "window", "flood"}).Draw(t, "k") {
 		case "advance":
 			return []c17Op{{K: "advance", Secs: rapid.OneOf(rapid.IntRange(1, 1500), rapid.SampledFrom([]int{60, 300, 420, 659, 660, 661, 1079, 1080, 1081, 1140})).Draw(t, "secs")}}
 		case "drain":
 			return []c17Op{{K: "drain", Chain: rapid.SampledFrom(c17Known).Draw(t, "chain")}}
+		case "flood":
+			ch := rapid.SampledFrom(c17Known).Draw(t, "chain")
+			tx := rapid.IntRange(0, 2).Draw(t, "tx")
+			return []c17Op{{K: "drain", Chain: ch}, {K: "request", Chain: ch, Tx: tx}, {K: "flood", Chain: rapid.SampledFrom(c17Known).Draw(t, "fchain"), Secs: rapid.SampledFrom([]int{40, 300, 1100, 1600}).Draw(t, "n")},
+				{K: "advance", Secs: rapid.IntRange(1, 600).Draw(t, "in")}, {K: "request", Chain: ch, Tx: tx}}
 		case "window": // forward, repeat inside the window, let the window lapse, repeat
 			ch := rapid.SampledFrom(c17Known).Draw(t, "chain")
 			tx := rapid.IntRange(0, 2).Draw(t, "tx")
